@@ -801,35 +801,42 @@ func sizeLimitRules(c *Ctx) {
 			n := selName(e)
 			return n == "maxCasBlobSizeBytes" || n == "maxBlobSize"
 		}
-		var compared []ast.Expr
-		var puts []ast.Expr
-		ast.Inspect(fi.Decl.Body, func(m ast.Node) bool {
-			if be, ok := m.(*ast.BinaryExpr); ok {
-				switch {
-				case be.Op == token.GTR && isLimE(be.Y):
-					compared = append(compared, be.X)
-				case be.Op == token.LSS && isLimE(be.X):
-					compared = append(compared, be.Y)
-				}
-			}
-			if call, ok := m.(*ast.CallExpr); ok && calleeKey(info, call) == "disk.(Cache).Put" && len(call.Args) == 5 {
-				puts = append(puts, call.Args[3])
-			}
-			return true
-		})
+		// the comparison and the store may both have moved into a helper split off the handler:
+		// every body (handler, helpers) is matched on its own
 		ok := false
 		what := ""
-		for _, cmp := range compared {
-			what = exprStr(cmp)
-			if fn == kPut {
-				ok = identObj(info, cmp) != nil && identObj(info, cmp) == paramObj(fi, 3)
-			}
-			for _, p := range puts {
-				if sameValue(info, cmp, p) {
-					ok = true
+		nputs := 0
+		for _, body := range helperBodies(c, fi) {
+			var compared []ast.Expr
+			var puts []ast.Expr
+			ast.Inspect(body, func(m ast.Node) bool {
+				if be, ok := m.(*ast.BinaryExpr); ok {
+					switch {
+					case be.Op == token.GTR && isLimE(be.Y):
+						compared = append(compared, be.X)
+					case be.Op == token.LSS && isLimE(be.X):
+						compared = append(compared, be.Y)
+					}
+				}
+				if call, ok := m.(*ast.CallExpr); ok && calleeKey(info, call) == "disk.(Cache).Put" && len(call.Args) == 5 {
+					puts = append(puts, call.Args[3])
+				}
+				return true
+			})
+			nputs += len(puts)
+			for _, cmp := range compared {
+				what = exprStr(cmp)
+				if fn == kPut && body == fi.Decl.Body {
+					ok = ok || (identObj(info, cmp) != nil && identObj(info, cmp) == paramObj(fi, 3))
+				}
+				for _, p := range puts {
+					if sameValue(info, cmp, p) {
+						ok = true
+					}
 				}
 			}
 		}
+		puts := make([]ast.Expr, nputs)
 		R.Check(ok, "R18b", c.Cfg+fn+":compared-is-stored", c.P.Pos(fi.Decl.Pos()), "the value compared with the limit is the size handed to Put", fmt.Sprintf("compared %q, %d Put call(s) with another size expression", what, len(puts)))
 	}
 	// R18c
